@@ -370,6 +370,8 @@ func ConvertJsonValueToTv(d any, slt *sdcpb.SchemaLeafType) (*sdcpb.TypedValue, 
 			i = v
 		case float64:
 			i = uint64(v)
+		default:
+			return nil, fmt.Errorf("error converting %v to %s", d, slt.Type)
 		}
 		return &sdcpb.TypedValue{
 			Value: &sdcpb.TypedValue_UintVal{UintVal: i},
@@ -393,6 +395,8 @@ func ConvertJsonValueToTv(d any, slt *sdcpb.SchemaLeafType) (*sdcpb.TypedValue, 
 			i = v
 		case float64:
 			i = int64(v)
+		default:
+			return nil, fmt.Errorf("error converting %v to %s", d, slt.Type)
 		}
 		return &sdcpb.TypedValue{
 			Value: &sdcpb.TypedValue_IntVal{IntVal: i},
@@ -407,23 +411,23 @@ func ConvertJsonValueToTv(d any, slt *sdcpb.SchemaLeafType) (*sdcpb.TypedValue, 
 			if err != nil {
 				return nil, err
 			}
+		default:
+			return nil, fmt.Errorf("error converting %v to boolean", d)
 		}
 		return &sdcpb.TypedValue{
 			Value: &sdcpb.TypedValue_BoolVal{BoolVal: b},
 		}, nil
 	case "decimal64":
-		arr := strings.SplitN(d.(string), ".", 2)
-		digits, err := strconv.ParseInt(arr[0], 10, 64)
+		// decimal64 is transported as string or number in json
+		d64, err := ParseDecimal64(fmt.Sprintf("%v", d))
 		if err != nil {
 			return nil, err
 		}
-		precision64, err := strconv.ParseUint(arr[1], 10, 32)
-		if err != nil {
-			return nil, err
+		if d64 == nil {
+			return nil, fmt.Errorf("error converting %v to decimal64", d)
 		}
-		precision := uint32(precision64)
 		return &sdcpb.TypedValue{
-			Value: &sdcpb.TypedValue_DecimalVal{DecimalVal: &sdcpb.Decimal64{Digits: digits, Precision: precision}},
+			Value: &sdcpb.TypedValue_DecimalVal{DecimalVal: d64},
 		}, nil
 	case "union":
 		for _, ut := range slt.GetUnionTypes() {
